@@ -103,10 +103,41 @@ def prove_eq(E, what, lhs, rhs):
     then with their defining equations."""
     if lhs is rhs:
         return True
+    pcs = E.path_constraints()
+    # 1) eliminate square roots algebraically (r*r -> radicand) and decide each coefficient of the normal form
+    try:
+        nf = dag.sqrt_normal(dag._sub(lhs, rhs))
+    except NotImplementedError:
+        nf = None
+    if nf is not None and all(not _has_sqrt(c) for c in nf.values()):
+        all_zero = True
+        for mono, c in nf.items():
+            if c is dag.ZERO:
+                continue
+            side = []
+            try:
+                num, den = dag.to_ratfun(c)
+                # residual polynomial identity num == 0 (denominators are non-zero on the path: the concrete run divided by them)
+                zc = num.to_z3(E.zenv) == 0
+                side = [('den', den.to_z3(E.zenv) != 0)] if den.as_const() is None else []
+            except NotImplementedError:
+                zc = dag.to_z3(Node('eq', c, dag.ZERO), E.zenv, E.zmemo, side)
+            s = z3.Solver(); s.set('timeout', E.prove_timeout_ms)
+            s.add(*pcs); s.add(*[cc for _, cc in side]); s.add(z3.Not(zc))
+            r = E._check(s)
+            if r != 'unsat':
+                all_zero = False
+                if not mono and r == 'sat' and len(nf) == 1:
+                    m = s.model()
+                    E.failures.append(symx.Failure(what, 'sat', E.model_inputs(m), _model_str(m), E.stats['paths']))
+                    return False
+                break
+        if all_zero:
+            return True
+    # 2) full query: sqrt symbols free first, then with their defining equations
     claim = Node('eq', lhs, rhs)
     side = []
     zc = dag.to_z3(claim, E.zenv, E.zmemo, side)
-    pcs = E.path_constraints()
     for use_side in (False, True):
         s = z3.Solver(); s.set('timeout', E.prove_timeout_ms)
         s.add(*pcs)
@@ -122,6 +153,13 @@ def prove_eq(E, what, lhs, rhs):
             else:
                 E.failures.append(symx.Failure(what, 'unknown', {}, s.reason_unknown(), E.stats['paths']))
             return False
+    return False
+
+
+def _has_sqrt(n):
+    for x in dag.topo([n]):
+        if x.op == 'sqrt' or (x.op == 'const' and dag.algebraic_sqrt(x.args[0]) is not None):
+            return True
     return False
 
 
